@@ -89,8 +89,13 @@ pub fn build_one(dt: &DataType, val: &str, off: usize) -> Result<ArrayRef, Strin
     })
 }
 
+fn raw(a: &ArrayRef) -> String {
+    // Debug of a one-row primitive array prints `PrimitiveArray<T>\n[\n  value,\n]`; keep the value line
+    let d = format!("{a:?}");
+    d.lines().nth(2).map(|l| l.trim().trim_end_matches(',').to_string()).unwrap_or(d)
+}
 fn show(a: &ArrayRef) -> String {
-    format!("type {} value {}", a.data_type(), arrow_cast::display::array_value_to_string(a, 0).unwrap_or_else(|e| format!("<{e}>")))
+    format!("type {} physical value {} (rendered: {})", a.data_type(), raw(a), arrow_cast::display::array_value_to_string(a, 0).unwrap_or_else(|e| format!("<{e}>")))
 }
 
 /// returns Some(exit code) when the case was replayed here
